@@ -24,6 +24,9 @@ type sioCase struct {
 	AttachMs int             `json:"attach_delay_ms"`
 	Script   []vp.StdioWrite `json:"script"` // written on the host's request after attaching
 	WithRPC  bool            `json:"with_rpc"`
+	// StartTimeoutMs: the client's StartTimeout; a script that goes on for longer than that after the
+	// host attached must still be delivered (the timeout is about starting, not about the streams)
+	StartTimeoutMs int `json:"start_timeout_ms,omitempty"`
 }
 
 func expectedStream(ws []vp.StdioWrite, stream string) ([]byte, []int) {
@@ -42,7 +45,8 @@ func runStdioCase(c sioCase, bin, tmp string) map[string]interface{} {
 	out := map[string]interface{}{"setup_ok": false, "panic": false, "alive": false}
 	wire, mux := protoSets(c.Proto)
 	pc := &vp.PluginCfg{LegacyVersion: 1, Legacy: &vp.SetCfg{Proto: wire, Tag: "1"}, GRPCServer: wire == "grpc", StdioScript: c.Pre}
-	hc := &vp.HostCfg{LegacyVersion: 1, Legacy: &vp.SetCfg{Proto: "grpc", Tag: "1"}, Allowed: []string{"netrpc", "grpc"}, Mux: mux, TempDir: tmp}
+	hc := &vp.HostCfg{LegacyVersion: 1, Legacy: &vp.SetCfg{Proto: "grpc", Tag: "1"}, Allowed: []string{"netrpc", "grpc"}, Mux: mux, TempDir: tmp,
+		StartTimeoutMs: c.StartTimeoutMs}
 	p := vp.NewPair(bin, hc, pc, []string{"TMPDIR=" + tmp}, nil)
 	defer p.Client.Kill()
 	if _, err := p.Client.Start(); err != nil {
@@ -91,6 +95,12 @@ func runStdioCase(c sioCase, bin, tmp string) map[string]interface{} {
 	}
 	// wait until everything arrived or nothing has moved for a while
 	deadline := time.Now().Add(15 * time.Second)
+	stall := 1500 * time.Millisecond // plus the longest pause the script itself makes
+	for _, w := range all {
+		if g := time.Duration(w.GapMs)*time.Millisecond + 1500*time.Millisecond; g > stall {
+			stall = g
+		}
+	}
 	last, lastChange := -1, time.Now()
 	for time.Now().Before(deadline) {
 		n := p.Out.Len() + p.Err.Len()
@@ -99,7 +109,7 @@ func runStdioCase(c sioCase, bin, tmp string) map[string]interface{} {
 		}
 		if n != last {
 			last, lastChange = n, time.Now()
-		} else if time.Since(lastChange) > 1500*time.Millisecond {
+		} else if time.Since(lastChange) > stall {
 			break
 		}
 		time.Sleep(10 * time.Millisecond)
